@@ -1,0 +1,48 @@
+//go:build verif
+// +build verif
+
+package rafthttp
+
+import (
+	"io"
+
+	"github.com/youzan/ZanRedisDB/pkg/types"
+	"github.com/youzan/ZanRedisDB/raft/raftpb"
+	"github.com/youzan/ZanRedisDB/stats"
+)
+
+// VerifCodec is the common shape of the stream encoders/decoders.
+type VerifEncoder interface {
+	Encode(m *raftpb.Message) error
+}
+type VerifDecoder interface {
+	Decode() (raftpb.Message, error)
+}
+
+type verifV2Enc struct{ e *msgAppV2Encoder }
+
+func (v verifV2Enc) Encode(m *raftpb.Message) error { return v.e.encode(m) }
+
+type verifV2Dec struct{ d *msgAppV2Decoder }
+
+func (v verifV2Dec) Decode() (raftpb.Message, error) { return v.d.decode() }
+
+type verifMsgEnc struct{ e *messageEncoder }
+
+func (v verifMsgEnc) Encode(m *raftpb.Message) error { return v.e.encode(m) }
+
+type verifMsgDec struct{ d *messageDecoder }
+
+func (v verifMsgDec) Decode() (raftpb.Message, error) { return v.d.decode() }
+
+func VerifNewMsgAppV2Encoder(w io.Writer) VerifEncoder {
+	return verifV2Enc{newMsgAppV2Encoder(w, &stats.PeerStats{})}
+}
+func VerifNewMsgAppV2Decoder(r io.Reader, local, remote uint64) VerifDecoder {
+	return verifV2Dec{newMsgAppV2Decoder(r, types.ID(local), types.ID(remote))}
+}
+func VerifNewMessageEncoder(w io.Writer) VerifEncoder { return verifMsgEnc{&messageEncoder{w: w}} }
+func VerifNewMessageDecoder(r io.Reader) VerifDecoder { return verifMsgDec{newMessageDecoder(r)} }
+
+// VerifLinkHeartbeat returns the link heartbeat message used on streams.
+func VerifLinkHeartbeat() raftpb.Message { return linkHeartbeatMessage }
